@@ -226,7 +226,9 @@ def impl(case):
         left = first.rule.left.raw
         pat = h_to_implicit(left) if has_XH(left) else left
         out.append([K.rc_obs(first.rule.rc.raw, mode != "I"), 1 if first.flag else 0, K.mol_obs(pat), 1, per])
-    return out
+    # second component: every compared writing is a rewriting of the base in the sense of the theorems (the model evaluates
+    # rewriting_okb on the renumberings found at generation time; expected: all 1)
+    return [out, [1] * len(out)]
 
 
 # ------------------------------------------------------------------ preparation: oracle inputs of the model (RDKit parsing)
@@ -254,6 +256,7 @@ def prepare(case):
     cost = dict(raw=0, glued=0, host=0)
     try:
         mv = set(_model_variants(case))
+        kept_recs = {}
         for vi, v in enumerate(case["variants"]):
             rec = K.run_reactor(_vcase(case, v, "all"))
             if not K.in_domain_tpl(rec.tpl):
@@ -263,6 +266,8 @@ def prepare(case):
                 case["pre"] = {"outside": "negative hydrogen count"}
                 return case
             vs.append([_host_json(rec.host), _its_json(rec.tpl)])
+            if vi in mv:
+                kept_recs[vi] = rec
             cost["raw"] = max(cost["raw"], len(rec.raw))
             cost["glued"] = max(cost["glued"], sum(len(c[3]) if c[1] is None else len(c[1]) for c in rec.glue_calls))
             cost["host"] = max(cost["host"], rec.host.number_of_nodes())
@@ -279,10 +284,40 @@ def prepare(case):
         case["pre"] = {"error": type(e).__name__ + ": " + str(e)[:120]}
         return case
     case["pre"] = {"vs": vs, "cost": cost}
+    try:
+        case["pre"]["maps"] = [_renumbering(kept_recs[0], kept_recs[i]) for i in sorted(kept_recs)]
+    except Exception as e:
+        case["pre"]["maps"] = None
     cost["est"] = round(cost.get("est", 0.0), 2)
     if cost["raw"] > MAX_RAW or cost["glued"] > MAX_GLUED or cost["host"] > MAX_HOST or cost["est"] > case.get("cap", 12.0):
         case["pre"]["big"] = True
     return case
+
+
+def _complete(f):
+    """extend an injective finite map to a permutation of (domain | image): image-only ids go back to the domain-only ids"""
+    dom, img = set(f), set(f.values())
+    extra = dict(zip(sorted(img - dom), sorted(dom - img)))
+    g = dict(f)
+    g.update(extra)
+    return sorted([int(a), int(b)] for a, b in g.items() if a != b)
+
+
+def _renumbering(rec0, rec):
+    """(pi, sg): an isomorphism base substrate -> this writing's substrate and base template -> this writing's template, found
+    by networkx on the graphs as parsed by the implementation (every attribute the model's graphs carry is compared); the
+    model re-checks them ([rewriting_okb]).  None when there is none."""
+    from networkx.algorithms.isomorphism import GraphMatcher
+    keys = ("element", "aromatic", "hcount", "charge", "neighbors")
+    gm = GraphMatcher(rec0.host, rec.host, node_match=lambda a, b: all(a.get(k, None) == b.get(k, None) for k in keys),
+                      edge_match=lambda a, b: a.get("order") == b.get("order"))
+    pi = next(gm.isomorphisms_iter(), None)
+    gt = GraphMatcher(rec0.tpl, rec.tpl, node_match=lambda a, b: a.get("typesGH") == b.get("typesGH"),
+                      edge_match=lambda a, b: a.get("order") == b.get("order") and a.get("standard_order") == b.get("standard_order"))
+    sg = next(gt.isomorphisms_iter(), None)
+    if pi is None or sg is None:
+        return None
+    return [_complete(pi), _complete(sg)]
 
 
 def _prep_worker(case):
@@ -322,9 +357,17 @@ def coq_case(case):
     if "error" in pre or "outside" in pre or pre.get("big") or case.get("mode") in PARTIAL_MODES:
         return None
     mode = case.get("mode", "E")
-    vs = K.cl(["(%s, %s)" % (_c_host(h), _c_tpl(t)) for h, t in [pre["vs"][i] for i in _model_variants(case)]])
+    maps = pre.get("maps") or [None] * len(_model_variants(case))
+
+    def cmap(f):
+        return K.cl(["(%s, %s)" % (K.cN(a), K.cN(b)) for a, b in f])
+    ws = []
+    for (h, t), m in zip([pre["vs"][i] for i in _model_variants(case)], maps):
+        # no isomorphism found by the harness: a map the model rejects (1 -> 1 twice), so the flag is 0 and the case is reported
+        pi, sg = m if m is not None else ([[1, 1], [1, 1]], [])
+        ws.append("(%s, %s, %s, %s)" % (_c_host(h), _c_tpl(t), cmap(pi), cmap(sg)))
     strats = K.cl([K.cN(STRATS[s]) for s in case["strategies"]])
-    return "run_c05 %s %s %s %s %s" % (K.cb(case.get("invert", False)), K.cb(mode == "I"), K.cb(mode == "E"), strats, vs)
+    return "run_c05w %s %s %s %s %s" % (K.cb(case.get("invert", False)), K.cb(mode == "I"), K.cb(mode == "E"), strats, K.cl(ws))
 
 
 # ------------------------------------------------------------------ property oracle (metamorphic, on the implementation only)
